@@ -130,13 +130,20 @@ def roles(cx, s):
         if s.op in ('compare_exchange', 'compare_exchange_weak'):
             if U.int_of(b, s.arg(1)) == cx.NODE_UNUSED and U.int_of(b, s.arg(2)) == cx.NODE_USED:
                 out.append(('inuse-claim', 0, 'Acquire', 'take over what the previous owner released'))
+            elif U.int_of(b, s.arg(1)) == cx.NODE_COOLDOWN and U.int_of(b, s.arg(2)) not in (None, cx.NODE_UNUSED, cx.NODE_USED, cx.NODE_COOLDOWN):
+                out.append(('inuse-cooldown-check', 0, 'Acquire', 'the 0 seen in active_writers must post-date the cooldown start; also takes over what the owner released'))
         elif s.op == 'swap':
             if U.int_of(b, s.arg(1)) == cx.NODE_COOLDOWN:
                 out.append(('inuse-cooldown', 0, 'Release', 'release ownership and the active_writers snapshot'))
+        elif s.op == 'store':
+            out.append(('inuse-verdict', 0, 'Release', 'a plain store ends the owner\'s release sequence: whoever claims (or re-checks) the node next synchronises with the checker, which acquired from the owner'))
         elif s.op == 'load':
             # the load that guards the cooldown->unused transition
             for o in cx.summ.sites_by_body.get(b.key, ()):
-                if o.cls == 'in_use' and o.op.startswith('compare_exchange') and b.dominates(s.bb, o.bb) and o.bb != s.bb:
+                if o.cls == 'in_use' and o.op.startswith('compare_exchange') and b.dominates(s.bb, o.bb) and o.bb != s.bb \
+                        and U.int_of(b, o.arg(2)) == cx.NODE_UNUSED:
+                    # (old shape: the load is the only acquire before the release exchange; with an exclusive
+                    # COOLDOWN->CHECKING exchange the acquire sits on that exchange and a preceding load is a mere filter)
                     out.append(('inuse-cooldown-check', 0, 'Acquire', 'the 0 seen in active_writers must post-date the cooldown start'))
                     break
     elif s.cls == 'active_writers':
@@ -362,12 +369,19 @@ def rule_inuse_fsm(fx, col):
                 col.ok('INUSE-FSM', s.key() + '|UNUSED->USED', 'claim by compare_exchange', s.loc)
             elif (frm, to) == (cx.NODE_COOLDOWN, cx.NODE_UNUSED):
                 edges.add('release')
-                # must be control dependent on in_use == COOLDOWN and active_writers == 0
+                # A compare-exchange straight from COOLDOWN to UNUSED re-validates only in_use. Its verdict ("no writer inside")
+                # comes from a separate, earlier read of active_writers, and in_use has no version: between that read and this
+                # exchange the node can go COOLDOWN -> UNUSED -> USED -> COOLDOWN with a writer registered in the USED phase.
+                # The exchange then releases the *later* cooldown with a writer inside (and the next owner restarts at the
+                # same helping generation).
                 conds = _eq_guards(cx, b, s.bb)
-                need1 = ('in_use', cx.NODE_COOLDOWN) in conds
-                need2 = ('active_writers', 0) in conds
-                col.add('INUSE-FSM', s.key() + '|COOLDOWN->UNUSED', need1 and need2,
-                        'guards found: %s; needs in_use==COOLDOWN and active_writers==0' % sorted(conds), s.loc)
+                col.add('INUSE-FSM', s.key() + '|COOLDOWN->UNUSED', False,
+                        'the node is released by a compare_exchange COOLDOWN->UNUSED guarded by earlier loads %s: the verdict on active_writers and the '
+                        'release are not atomic (in_use carries no version: ABA over COOLDOWN->UNUSED->USED->COOLDOWN); the check has to take the node '
+                        'out of COOLDOWN exclusively first' % sorted(conds), s.loc)
+            elif frm == cx.NODE_COOLDOWN and to is not None and to not in (cx.NODE_UNUSED, cx.NODE_USED, cx.NODE_COOLDOWN):
+                edges.add('check')
+                col.ok('INUSE-FSM', s.key() + '|COOLDOWN->CHECKING(%s)' % to, 'the checker takes the node out of COOLDOWN exclusively before it looks at active_writers', s.loc)
             else:
                 col.fail('INUSE-FSM', s.key() + '|%s->%s' % (frm, to), 'illegal ownership transition %s -> %s' % (frm, to), s.loc)
         elif s.op == 'swap':
@@ -377,6 +391,31 @@ def rule_inuse_fsm(fx, col):
                 col.ok('INUSE-FSM', s.key() + '|->COOLDOWN', 'owner starts cooldown', s.loc)
             else:
                 col.fail('INUSE-FSM', s.key() + '|swap->%s' % to, 'ownership flag swapped to %s (only ->COOLDOWN is legal)' % to, s.loc)
+        elif s.op == 'store':
+            # the verdict of an exclusive check: UNUSED (released) or COOLDOWN (put back), only by the thread whose
+            # compare_exchange COOLDOWN -> CHECKING succeeded, and UNUSED only on active_writers == 0 read after that success
+            from .protect import _on_cas_success
+            checks = [o for o in cx.summ.sites_by_body.get(b.key, ()) if o.cls == 'in_use' and o.op.startswith('compare_exchange')
+                      and U.int_of(b, o.arg(1)) == cx.NODE_COOLDOWN and U.int_of(b, o.arg(2)) not in (None, cx.NODE_UNUSED, cx.NODE_USED, cx.NODE_COOLDOWN)]
+            excl = bool(checks) and _on_cas_success(b, checks[0], s.bb)
+            vals = set()
+            for o in b.origins(s.arg(1)):
+                vals.add(U.int_of(b, s.arg(1)) if o[0] != 'const' else o[1])
+            d = U.def_rvalue(b, s.arg(1))
+            cands = _const_values(b, s.arg(1))
+            ok_vals = bool(cands) and cands <= {cx.NODE_UNUSED, cx.NODE_COOLDOWN}
+            aw = [o for o in cx.summ.sites_by_body.get(b.key, ()) if o.cls == 'active_writers' and o.op == 'load']
+            aw_ok = bool(aw) and all(_on_cas_success(b, checks[0], o.bb) for o in aw) if checks else False
+            if cx.NODE_UNUSED in (cands or ()):
+                edges.add('release')
+            col.add('INUSE-FSM', s.key() + '|verdict store', excl and ok_vals and aw_ok,
+                    'store of %s to the ownership flag; only after this body\'s own COOLDOWN->CHECKING exchange succeeded: %s; active_writers read inside that '
+                    'exclusive window: %s' % (sorted(cands) if cands else '?', excl, aw_ok), s.loc)
+            if excl and ok_vals and aw_ok and cx.NODE_UNUSED in cands:
+                # UNUSED only when the count read was zero
+                zero = _unused_only_on_zero(cx, b, s, aw)
+                col.add('INUSE-FSM', s.key() + '|UNUSED only when no writer is inside', zero,
+                        'the value stored is UNUSED only on the active_writers == 0 outcome, COOLDOWN otherwise', s.loc)
         else:
             col.fail('INUSE-FSM', s.key(), 'ownership flag written by `%s`' % s.op, s.loc)
     # initialiser
@@ -392,8 +431,57 @@ def rule_inuse_fsm(fx, col):
                     edges.add('init')
                     col.add('INUSE-FSM', '%s|init' % b.fname, v == cx.NODE_USED,
                             'a fresh node is born USED (owned by its creator); found %s' % v, b.loc(bb, i))
-    for e in ('init', 'claim', 'cooldown', 'release'):
+    for e in ('init', 'claim', 'cooldown', 'check', 'release'):
         col.floor('INUSE-FSM', 'edge ' + e, 1 if e in edges else 0, 1)
+
+
+def _const_values(b, op, depth=0):
+    """set of integer constants an operand can hold (following copies and variables assigned constants in several places)"""
+    if depth > 5 or op is None:
+        return None
+    if op['k'] == 'const':
+        return {op['c']['int']} if 'int' in op['c'] else None
+    v = U.int_of(b, op)
+    if v is not None:
+        return {v}
+    if op['k'] in ('copy', 'move') and not op['place']['proj']:
+        out = set()
+        ds = [x for x in b.assigns().get(op['place']['local'], ()) if not x[4]]
+        if not ds:
+            return None
+        for (bb, i, kind, rv, proj) in ds:
+            if kind != 'stmt' or rv['k'] != 'use':
+                return None
+            r = _const_values(b, rv['op'], depth + 1)
+            if r is None:
+                return None
+            out |= r
+        return out
+    return None
+
+
+def _unused_only_on_zero(cx, b, s, aw):
+    """the operand stored is assigned UNUSED only in blocks control dependent on `active_writers.load() == 0`"""
+    op = s.arg(1)
+    if op['k'] not in ('copy', 'move') or op['place']['proj']:
+        return False
+    l = op['place']['local']
+    for hop in range(4):
+        ds = [x for x in b.assigns().get(l, ()) if not x[4]]
+        if len(ds) == 1 and ds[0][2] == 'stmt' and ds[0][3]['k'] == 'use' and ds[0][3]['op']['k'] in ('copy', 'move') and not ds[0][3]['op']['place']['proj']:
+            l = ds[0][3]['op']['place']['local']
+            continue
+        break
+    ds = [x for x in b.assigns().get(l, ()) if not x[4]]
+    found = False
+    for (bb, i, kind, rv, proj) in ds:
+        if kind != 'stmt' or rv['k'] != 'use' or rv['op']['k'] != 'const':
+            return False
+        if rv['op']['c'].get('int') == cx.NODE_UNUSED:
+            found = True
+            if ('active_writers', 0) not in _eq_guards(cx, b, bb):
+                return False
+    return found
 
 
 def _eq_guards(cx, b, bb):
